@@ -1190,7 +1190,7 @@ func interpAllowed(name string) bool {
 	switch name {
 	case "errors.New", "(*errors.errorString).Error",
 		"(*crypto/ecdsa.PrivateKey).Public", "(crypto/ed25519.PrivateKey).Public", "(*crypto/rsa.PrivateKey).Public",
-		"(*crypto/ed25519.PrivateKey).Public":
+		"(*crypto/ed25519.PrivateKey).Public", "(*crypto/rsa.PublicKey).Size":
 		return true
 	}
 	return false
